@@ -11,11 +11,13 @@ import (
 func fixedSchema() *gqlgen.SchemaDesc {
 	N, L, NN := gqlgen.Named, gqlgen.ListOf, gqlgen.NonNull
 	k := []gqlgen.ArgDesc{{Name: "k", Type: N("Int")}}
-	pet := []gqlgen.FieldDesc{{Name: "name", Type: NN(N("String"))}, {Name: "age", Type: N("Int")}}
+	// owner: a composite field of the interface, of the same object type in every implementation (the
+	// sub-selections of one response key then merge per concrete parent type into lists for one object type)
+	pet := []gqlgen.FieldDesc{{Name: "name", Type: NN(N("String"))}, {Name: "age", Type: N("Int")}, {Name: "owner", Type: N("Person")}}
 	return &gqlgen.SchemaDesc{Query: "Query", Mutation: "Mutation", Types: []gqlgen.TypeDesc{
 		{Kind: "interface", Name: "Pet", Fields: pet},
 		{Kind: "object", Name: "Dog", Interfaces: []string{"Pet"}, Fields: append(append([]gqlgen.FieldDesc{}, pet...),
-			gqlgen.FieldDesc{Name: "barks", Type: NN(L(NN(N("Int"))))}, gqlgen.FieldDesc{Name: "owner", Type: N("Person")})},
+			gqlgen.FieldDesc{Name: "barks", Type: NN(L(NN(N("Int"))))})},
 		{Kind: "object", Name: "Cat", Interfaces: []string{"Pet"}, Fields: append(append([]gqlgen.FieldDesc{}, pet...),
 			gqlgen.FieldDesc{Name: "lives", Type: NN(N("Int"))}, gqlgen.FieldDesc{Name: "friend", Type: N("Pet")})},
 		{Kind: "object", Name: "Person", Fields: []gqlgen.FieldDesc{
@@ -36,6 +38,36 @@ func fixedSchema() *gqlgen.SchemaDesc {
 type fixedPair struct {
 	Query string
 	Vars  map[string]interface{}
+	// Mixed: the base world must hold a list with objects of at least two concrete types
+	Mixed bool
+}
+
+// hasMixedList reports whether some list of the world holds objects of two different types.
+func hasMixedList(o *gqlgen.Outcome) bool {
+	if o == nil {
+		return false
+	}
+	first := ""
+	for _, it := range o.Items {
+		if it != nil && it.Kind == "obj" {
+			if first == "" {
+				first = it.Type
+			} else if it.Type != first {
+				return true
+			}
+		}
+	}
+	for _, it := range o.Items {
+		if hasMixedList(it) {
+			return true
+		}
+	}
+	for _, f := range o.Fields {
+		if hasMixedList(f.Out) {
+			return true
+		}
+	}
+	return false
 }
 
 var fixedPairs = []fixedPair{
@@ -66,6 +98,15 @@ var fixedPairs = []fixedPair{
 	// the same fragment reached through another fragment and directly: visited once (shared visited set)
 	{Query: `{ maybe { ...A ...B } } fragment A on Person { ...B name } fragment B on Person { friend { name } id }`},
 	{Query: `{ pet { ...A ... on Cat { ...C } } } fragment A on Pet { ...C age } fragment C on Cat { friend { age } lives }`},
+	// merged sub-selection lists for one object type that agree in their first and last selection and in
+	// their length but not in the middle (seed C01-13: a memo key that summarises the list of positions):
+	// per concrete parent type in one list ...
+	{Query: `{ animals { ... on Pet { owner { __typename } } ... on Dog { owner { id } } ... on Cat { owner { name } } ... on Pet { owner { t: __typename } } } }`, Mixed: true},
+	{Query: `{ maybe { pets { owner { __typename } ... on Dog { owner { id } } ... on Cat { owner { name } } owner { t: __typename } } } }`, Mixed: true},
+	// ... and per place of use of shared fragments
+	{Query: `{ me { ...F friend { id } ...H } maybe { ...F friend { mood } ...H } } fragment F on Person { friend { __typename } } fragment H on Person { friend { t: __typename } }`},
+	// the same selections merged in a different order
+	{Query: `{ me { ...F ...G } maybe { ...G ...F } } fragment F on Person { friend { name } } fragment G on Person { friend { __typename } }`},
 }
 
 // exhaustive enumerates, for every fixed (schema, document) pair, every assignment of
@@ -128,7 +169,7 @@ func (h *harness) exhaustive() {
 					entries++
 				}
 			}
-			if combos <= capCombos && len(w.Sites) >= 3 && entries <= 7 {
+			if combos <= capCombos && len(w.Sites) >= 3 && entries <= 7 && (!p.Mixed || hasMixedList(w.Root)) {
 				found = true
 			}
 		}
@@ -137,6 +178,10 @@ func (h *harness) exhaustive() {
 			complete = false
 			seed = uint64(pi)*1000 + 1
 			w := gqlgen.BaseWorld(hx.NewRand(seed), s, req, op)
+			for try := uint64(1); p.Mixed && !hasMixedList(w.Root) && try < 400; try++ {
+				seed = uint64(pi)*1000 + 1 + try
+				w = gqlgen.BaseWorld(hx.NewRand(seed), s, req, op)
+			}
 			sr := hx.NewRand(seed + 7)
 			nsamp := capCombos / 4
 			for n := 0; n < nsamp && h.failures < maxFailures; n++ {
